@@ -433,6 +433,30 @@ def oracle_c06(w):
                     n = len([g for g in ge if idx < g < i])
                     if n < a[3]:
                         out.append(('timeout-early', f'TimeoutError after {n} loop iterations, timeout={a[3]} (event {ev}, handler {h})'))
+    # at-least-once at quiescence: a waiter whose awaited event was dispatched and has no handler left suspended, with
+    # nothing queued anywhere, must have been resumed (or have timed out) - read off the suspended wait generator itself
+    try:
+        queued = any(len(c) for c in w.comps if c is not None and c.root is c)
+    except Exception:
+        queued = True
+    if not queued:
+        for g in w.keep:
+            kind = w.side['gens'].get(w.gen_ids.get(id(g)), ('other',))
+            if kind[0] != 'wait' or getattr(g, 'gi_frame', None) is None:
+                continue
+            inner = getattr(g, 'gi_yieldfrom', None) or g
+            fr = getattr(inner, 'gi_frame', None)
+            st = fr.f_locals.get('state') if fr is not None else None
+            if st is None or not getattr(st, 'run', False) or getattr(st, 'flag', False) or getattr(st, 'timed_out', False):
+                continue
+            aw = getattr(st, 'event', None)
+            if aw is None or getattr(aw, 'waitingHandlers', 1) != 0 or not hasattr(aw, '_vid'):
+                continue
+            if any(gen is not g and getattr(gen, 'gi_frame', None) is not None
+                   and w.side['gens'].get(w.gen_ids.get(id(gen)), ('other',))[:2] == ('user', aw._vid) for gen in w.keep):
+                continue        # a handler of the awaited event is itself still suspended
+            out.append(('never-resumed', f'handler {kind[2]} of event {kind[1]} waits (step {kind[3]}) for event {aw._vid}, which was '
+                        f'dispatched and has no handler left running; nothing is queued, and the waiter was neither resumed nor timed out'))
     # residue at quiescence: every started call/wait got its R or T, then tables are back to the initial ones
     nres = len([e for e in E if e[0] in ('R', 'T')])
     live_user = [g for g in w.keep if getattr(g, 'gi_frame', None) is not None
